@@ -110,7 +110,7 @@ CHECKS = {
         technique=TECH + "seeded fault sequences on datasets / input sections (well-formedness model) and a complete "
         "single-fault sweep over the I/O seam of each sampled CLI run",
         text="Fault operators (breaking / preserving) applied in seeded sequences to well-formed dataset pairs and "
-        "input sections (incl. fault-then-repair at the same path), verdict of check_datasets / check_input_section "
+        "input sections (incl. fault-then-repair at the same path, grids in narrow / unsigned integer sample types), verdict of check_datasets / check_input_section "
         "compared with a well-formedness model in "
         "histories; for sampled CLI scenarios an OSError is injected at every read-open index k in turn: the run must "
         "refuse before any matching-cost event.",
@@ -125,9 +125,10 @@ CHECKS = {
         text="(a) every numba prange kernel's Python source is rewritten so each outer iteration is a generator "
         "yielding after every statement and a seeded scheduler interleaves 2-4 simulated threads: outputs must be "
         "bit-identical to the sequential schedule; (b) histories of check/run/abort operations on several machines "
-        "and step classes (near-twin and band-twin pipelines, multiscale, aborted runs, rejected checks): every "
-        "successful run's digest must equal the fresh-machine reference and caller datasets "
-        "stay untouched; (c) real builds with 1/2/16 threads and parallel off, sampled.",
+        "and step classes (near-twin and band-twin pipelines, multiscale, aborted runs, rejected checks, twins "
+        "just outside a parameter domain that a pristine process refuses): every "
+        "successful run's digest must equal the fresh-machine reference, a refusal must stay a refusal, and caller "
+        "datasets stay untouched; (c) real builds with 1/2/16 threads and parallel off, sampled.",
         note="memory model: sequential consistency at statement granularity plus split a[i] op= v; real numba thread "
         "interleavings are sampled, not steered",
         ref="§5 C18",
@@ -136,7 +137,8 @@ CHECKS = {
         level="exploration",
         technique=TECH + "CLI runs against a recording/fault-injecting I/O seam, restart = fresh process that sees "
         "only the files, replay of the saved configuration, write-fault sweep",
-        text="pandora.main on seeded worlds written as GeoTIFF; a separate reader process compares the files with the "
+        text="pandora.main on seeded worlds written as GeoTIFF (one in four after an earlier job of the same process read "
+        "other rasters at the same paths); a separate reader process compares the files with the "
         "captured in-memory products (names, dtypes, pixels incl. NaN, band descriptions, georeferencing, config + "
         "margins); the saved configuration is replayed in a fresh interpreter and must reproduce byte-equal rasters; "
         "an OSError at the k-th write-open / makedirs / config open must make main raise.",
